@@ -473,7 +473,18 @@ func RunProperty(cfg RunConfig) int {
 					out, code = runSelf(cfg.Self, 10*time.Minute, "replay", replayPath)
 				}
 			}
-			if code == 1 && strings.Contains(out, "REPRODUCED") {
+			unowned := v.Clause == "free_running" || v.Clause == "race_report"
+			for try := 0; unowned && try < 4 && !(code == 1 && strings.Contains(out, "REPRODUCED")); try++ {
+				// the one clause whose interleaving the simulator does not own (C13 iv):
+				// a true positive may need several attempts to show again
+				out, code = runSelf(cfg.Self, 10*time.Minute, "replay", replayPath)
+			}
+			if unowned && !(code == 1 && strings.Contains(out, "REPRODUCED")) {
+				fmt.Printf("note: clause %s depends on the OS scheduler; it was observed in the discovering process but did not show again in 5 fresh replays (each with 200 rounds). Results are schedule-independent iff the property holds, so it is reported.\n", v.Clause)
+				fmt.Printf("violation: clause=%s detail=%s\n", v.Clause, v.Detail)
+				fmt.Printf("VIOLATION property=%s replay=%s\n", cfg.Prop, replayPath)
+				exit = 1
+			} else if code == 1 && strings.Contains(out, "REPRODUCED") {
 				fmt.Printf("violation: clause=%s detail=%s\n", v.Clause, v.Detail)
 				fmt.Printf("VIOLATION property=%s replay=%s\n", cfg.Prop, replayPath)
 				exit = 1
